@@ -256,7 +256,9 @@ class DM14Server:
             return
 
         length = min(data[0], len(data) - 1)
-        self.data_queue.put(data[1 : length + 1])
+        if self.command != j1939.Command.READ.value:
+            # (for a read this is the end-of-message acknowledge of our own DM16, not data)
+            self.data_queue.put(data[1 : length + 1])
         self._ca.unsubscribe(self._parse_dm16)
         self._ca.subscribe(self.parse_dm14)
         self.state = ResponseState.SEND_OPERATION_COMPLETE
